@@ -287,6 +287,8 @@ class Model(object):
 
     def min_objective_value(self):
         # Get termination criterion for f small: f <= abs_tol or f <= rel_tol * f0
+        if not np.isfinite(self.objbeg):  # (rel_tol * inf would make every later value "sufficiently small")
+            return self.abs_tol
         return max(self.abs_tol, self.rel_tol * self.objbeg)
 
     def model_value(self, d, d_based_at_xopt=True, with_const_term=False):
